@@ -77,3 +77,24 @@ Theorem C05_cache_not_older_after_event : forall F c ev e,
   exists cu, clookup (key_of (ev_obj e)) (fst (do_update F c ev)) = Some cu /\ e_obj cu = ev_obj e.
 Proof. exact cache_not_older_after_event. Qed.
 Print Assumptions C05_cache_not_older_after_event.
+
+(* Known finding D13: the statement is FALSE once the channel in front of the
+   publisher is taken as what it is — a buffer of EventBufsiz slots filled
+   without waiting (RootHop.v; the theorems above take it as unbounded and
+   speak about what the publisher picks up).  Of a batch larger than the
+   channel that arrives before the publisher runs, a subscriber that reads at
+   once receives exactly the first EventBufsiz events; its own backlog never
+   exceeds one. *)
+From KC Require Import RootHop.
+
+Theorem C05_big_batch_is_truncated_at_the_root_refuted : forall (E : Type) (cap cap2 : nat) (es : list E),
+  0 < cap2 ->
+  exists maxb, relay E cap2 (burst E cap [] es) [] [] 0 = ([], firstn cap es, maxb) /\ maxb <= 1.
+Proof. exact big_batch_is_truncated_at_the_root. Qed.
+Print Assumptions C05_big_batch_is_truncated_at_the_root_refuted.
+
+Theorem C05_prompt_subscriber_misses_events_refuted : forall (E : Type) (cap cap2 : nat) (es : list E),
+  0 < cap2 -> cap < length es ->
+  snd (fst (relay E cap2 (burst E cap [] es) [] [] 0)) <> es.
+Proof. exact prompt_subscriber_misses_events. Qed.
+Print Assumptions C05_prompt_subscriber_misses_events_refuted.
